@@ -563,7 +563,7 @@ def cases(tier, seed):
     cs.append({"kind": "rect", "align": "none", "mos": "", "variant": "default"})
     # number lexing: token length by arity so that a case stays within ~10^4 paths
     for name, n in OPS:
-        nl = {1: 5, 2: 3, 3: 2, 6: 1}[n] if tier == "quick" else {1: 6, 2: 4, 3: 2, 6: 1}[n]
+        nl = {1: 5, 2: 3, 3: 2, 6: 1}[n] if tier == "quick" else {1: 6, 2: 3, 3: 2, 6: 1}[n]
         for sep in range(2 if tier == "quick" else len(LEX_SEPS)):
             cs.append({"kind": "lex", "op": name, "n": n, "numlen": nl, "sep": sep})
     return cs
